@@ -282,6 +282,10 @@ pub struct SlaveCfg {
     /// after any loss of synchronisation the receivers find "telegrams" inside the payload.
     #[serde(default)]
     pub delimiter_payload: bool,
+    /// The peer encodes every data telegram with the variable-length start delimiter (SD2), also
+    /// those that fit SD1 / SD3: legal on the wire, never produced by profirust's own serialiser.
+    #[serde(default)]
+    pub sd2_always: bool,
 }
 
 #[derive(Serialize, Deserialize, Clone, Debug)]
